@@ -918,6 +918,8 @@ class Engine:
                 s.log_event(attr, [a for a in args[1:] if not isinstance(a, (SFunc, SBuiltin))])
                 return eng.external_outcomes(s, attr, label)
             return [(st, SBuiltin(label, ext, self_val=v))]
+        if isinstance(v, SNone) and not self.pure:
+            return [(self.raise_(st, "AttributeError", f"'NoneType' object has no attribute '{attr}'"), None)]
         raise Unsupported(f"attribute {attr} on {type(v).__name__} at {self.loc(node)}")
 
     def typed_container(self, st, w, deep=False):
@@ -1070,6 +1072,9 @@ class Engine:
             node = ast.Call(func=f.args[0], args=node.args, keywords=node.keywords)
             ast.copy_location(node, f)
             f = node.func
+        if isinstance(f, ast.Name) and f.id in ("any", "all") and len(node.args) == 1 and not node.keywords \
+                and isinstance(node.args[0], ast.GeneratorExp) and f.id not in st.frames[fi].vars and not self.pure:
+            return self.models.any_all_genexp(self, node, st, fi)
         # spec-only constructs
         if isinstance(f, ast.Name) and f.id in self.models.SPEC_FUNCS and (self.pure or f.id in ("old",)):
             return self.models.SPEC_FUNCS[f.id](self, node, st, fi)
@@ -1166,7 +1171,7 @@ class Engine:
             return st.ghost["obs:" + attr]
         if not self.pure:
             st.ghost["obs_used:" + attr] = True
-        texpr = self.contracts.external_returns.get(attr) if self.contracts is not None else None
+        texpr = self.contracts.external_returns.get(attr.split("#")[0]) if self.contracts is not None else None
         if texpr is not None:
             tmod = self.fe.module(self.contracts.ext_module) if self.contracts.ext_module else st.frames[0].module
             ty = self.fe.parse_type(texpr, tmod)
@@ -1200,7 +1205,9 @@ class Engine:
 
     def call_function(self, st, fv: SFunc, args, kwargs, node=None):
         if self.contracts is not None and fv.qual in self.contracts.pure_functions:
-            return [(st, self.pure_call(st, fv.qual, list(args)))]
+            # a pure METHOD is a function of its receiver too
+            recv = [fv.self_val] if fv.self_val is not None and not isinstance(fv.self_val, SClass) else []
+            return [(st, self.pure_call(st, fv.qual, recv + list(args)))]
         # contract / inline decision
         if getattr(fv, "is_property", False):
             pass
@@ -1356,7 +1363,21 @@ class Engine:
         for stmt in stmts:
             nxt = []
             for s in pending:
-                for o in self.ex(stmt, s, fi):
+                pc_before = list(s.pc)
+                outs = self.ex(stmt, s, fi)
+                if outs and not self.pure and any(isinstance(n, (ast.ListComp, ast.SetComp, ast.DictComp, ast.GeneratorExp)) for n in ast.walk(stmt)
+                                                  if not isinstance(stmt, (ast.For, ast.While, ast.If, ast.Try, ast.With, ast.FunctionDef))) \
+                        and not any(o.st.feasible() for o in outs):
+                    outs = []  # every outcome carries a contradictory path condition: same situation as no outcome at all
+                # (paths that die elsewhere are caught where they end: Verifier.verify_function checks every outcome, loops their back edges)
+                if not outs and not self.pure:
+                    # a state that can be reached has a successor (normal or exceptional).  No outcome at all means the executor put
+                    # contradictory facts on the path: everything after this statement would be 'proved' vacuously
+                    probe = State.__new__(State)
+                    probe.pc = pc_before
+                    if State.feasible(probe):
+                        raise Unsupported(f"statement at {self.loc(stmt)} has no feasible outcome from a feasible state (engine limitation; nothing after it would be checked)")
+                for o in outs:
                     if o.kind == "next":
                         nxt.append(o.st)
                     else:
